@@ -402,7 +402,7 @@ class Guarded:
         raise KeyError(k)
 
 
-KEYS = ['a', 'b', 'user', 'rows', 'title', 'name']
+KEYS = ['a', 'b', 'user', 'rows', 'title', 'name', 'items', 'get', 'keys', 'values']       # incl. names of dict methods
 
 
 def path_tree(rng, depth=0):
@@ -495,7 +495,11 @@ def path_expr(rng, tree):
             src = "{'w': %s}['w']" % src
         elif w < .55:
             src = '(%s)' % src
-    if rng.random() < .3:
+    if isinstance(cur, dict) and rng.random() < .6:
+        # methods of the container itself win over items of the same name (attribute first)
+        m = rng.choice(['len(%s.items())', 'len(%s.keys())', 'sorted(%s.keys())[0]', 'len(list(%s.values()))', "%s.get('nosuch', 'dflt')"])
+        src, val = m % src, (lambda v=val, m=m: eval(m % 'o', {'o': v(), 'len': len, 'sorted': sorted, 'list': list}))
+    elif rng.random() < .3:
         src, val = 'str(%s).upper()' % src, (lambda v=val: str(v()).upper())
     return src, val
 
